@@ -34,6 +34,9 @@ def entry_strategy():
         "arr": st.sampled_from(["init", "init", "fini", "fini", "ctors", "dtors", "preinit"]),
         "prio": prio,
         "pad": st.booleans(),
+        # same section as the TU's previous entry (several entries in one input section: the
+        # intra-section order, reversed for .ctors/.dtors, becomes observable)
+        "dup": st.sampled_from([False, False, True]),
     })
 
 
@@ -69,6 +72,8 @@ def normalise(case):
         ents = []
         for e in tu["entries"]:
             arr, prio = e["arr"], e["prio"]
+            if e.get("dup") and ents:
+                arr, prio, e = ents[-1]["arr"], ents[-1]["prio"], {**e, "pad": ents[-1]["pad"]}
             if tu["kind"] != "asm":
                 arr = {"ctors": "init", "dtors": "fini", "preinit": "init"}.get(arr, arr)
             if arr == "preinit":
@@ -457,6 +462,13 @@ class C30(Check):
             if legacy[f] and modern[f]:
                 nontrivial = True
                 classes.append(f"mixed-legacy:{f}")
+        for tu in tus:
+            if is_loaded(case, tu):
+                names = [predicted_secname(tu["kind"], e) for e in tu["entries"]]
+                if any(n.startswith((".ctors", ".dtors")) and names.count(n) > 1 for n in names):
+                    classes.append("legacy-section-with-several-entries")
+                    nontrivial = True
+                    break
         kinds = sorted({tu["kind"] for tu in tus if tu["entries"]})
         classes += [f"kind:{k}" for k in kinds]
         classes += sorted({f"where:{tu['where'][:2]}" for tu in tus if tu["entries"]})
